@@ -222,6 +222,11 @@ def make_middleware(i, spec, is_async):
         LOG.append({'e': 'leave', 'i': str(i)})
 
     def transform_request(request):
+        if k == 'appendParam':
+            # in-place mutation of the request's own parameter list (no copy): it must stay this request's own
+            if isinstance(request.params, list):
+                request.params.append(dec(spec['v']))
+            return request
         if k == 'rename':
             return pjrpc.Request(spec['to'], request.params, request.id)
         if k == 'setParams':
@@ -328,7 +333,13 @@ def build_dispatcher(cfg, is_async, fresh=False, coroutine_methods=None):
             f = make_callable(m.get('fn') or key, m['sig'], coroutine_methods, False, deco=bool(m.get('deco')))
             if m.get('post') is not None or excluded:
                 _VerdictValidator(key, excluded).validate(f)
-            d.registry.add_methods(pjrpc.server.Method(f, key, m.get('ctx'), bool(m.get('positional'))))
+            if m.get('via_registry'):
+                # registered on a registry of its own which is then merged into the dispatcher's (methods are copied)
+                reg = pjrpc.server.MethodRegistry()
+                reg.add_methods(pjrpc.server.Method(f, key, m.get('ctx'), bool(m.get('positional'))))
+                d.add_methods(reg)
+            else:
+                d.registry.add_methods(pjrpc.server.Method(f, key, m.get('ctx'), bool(m.get('positional'))))
     if not fresh:
         _DISPATCHERS[sk] = d
     return d
